@@ -331,6 +331,12 @@ var boundaryTemplates = []struct {
 	{"func skip(v) {\nif v == 2 {\ncontinue\n}\n}\nn = 0\nfor n < 3 {\nn++\nskip(n)\nprobe(n)\n}\nprobe(99)", []string{"(i 1)"}, "unexpected continue"},
 	{"func stop(a, b, c, d, e) {\nbreak\n}\nfor {\nprobe(1)\nstop(1, 2, 3, 4, 5)\nprobe(2)\nbreak\n}\nprobe(99)", []string{"(i 1)"}, "unexpected break"},
 	{"func stop(v...) {\nswitch 1 {\ncase 1:\nbreak\n}\n}\nfor i = 0; i < 2; i++ {\nfor j = 0; j < 2; j++ {\nprobe(10 * i + j)\nstop()\n}\n}\nprobe(99)", []string{"(i 0)"}, "unexpected break"},
+	// the subject of a for-in loop is evaluated once, to a value: a body that replaces the slot it was read from does not move the loop
+	{"a = [[1, 2]]\nn = 0\nfor x in a[0] {\nif n < 5 {\na[0] += 9\n}\nn++\n}\nprobe(n)", []string{"(i 2)"}, ""},
+	{"m = make([][]int64, 1)\nm[0] = make([]int64, 2)\nn = 0\nfor x in m[0] {\nif n < 5 {\nm[0] += 9\n}\nn++\n}\nprobe(n)", []string{"(i 2)"}, ""},
+	{"m = make([][]int64, 1)\nm[0] = [1, 2, 3]\nn = 0\nfor x in m[0] {\nm[0] = []\nn += x\n}\nprobe(n)", []string{"(i 6)"}, ""},
+	{"s = make(struct { L []int64 })\ns.L = [1, 2, 3]\nn = 0\nfor x in s.L {\ns.L = [9]\nn += x\n}\nprobe(n)", []string{"(i 6)"}, ""},
+	{"v = [1, 2, 3]\nn = 0\nfor x in v {\nv = [9]\nn += x\n}\nprobe(n)", []string{"(i 6)"}, ""},
 	{"r = 0\nfor i = 0; i < 3; i++ {\nr = func() {\nfor {\nbreak\n}\nreturn i\n}()\nprobe(r)\n}", []string{"(i 0)", "(i 1)", "(i 2)"}, ""},
 	{"probe(func() {\nmodule a {\nreturn 10\n}\nreturn 20\n}())", []string{"(i 10)"}, ""},
 	{"probe(func() {\nmodule a {\nif true {\nfor {\nreturn 1, 2\n}\n}\n}\n}())", []string{"(l (i 1) (i 2))"}, ""},
